@@ -164,3 +164,37 @@ Fixpoint ax_starts_clear (fuel : nat) (e : ax_entry) : bool :=
   | SetsOnly => false
   | ClearsVia e' => match fuel with O => false | S f => ax_starts_clear f e' end
   end.
+
+(** ** The context's [noerr.notpresent] flag
+
+    While it is set, the page-table step functions return
+    ADDRXLAT_ERR_NOTPRESENT without recording a message.  It is switched on
+    only by [lowest_mapped] / [highest_mapped] (src/addrxlat/step.c) around
+    their table scan:
+        status = internal_launch(step, *addr);
+        if (status != ADDRXLAT_OK) return status;
+        savednoerr = ctx->noerr.notpresent; ctx->noerr.notpresent = 1;
+        status = ..._mapped_tbl(step, addr, limit);
+        ctx->noerr.notpresent = savednoerr;
+        return status;
+    [early_set = true] is the variant that sets the flag before the launch
+    (seeded as C16-c1); [flag] is the flag at entry, the result is the status
+    and the flag at return. *)
+Definition scan_mapped (early_set : bool) (flag : bool) (launch_st tbl_st : Z) : Z * bool :=
+  if early_set then
+    let saved := flag in
+    if negb (launch_st =? ADDRXLAT_OK) then (launch_st, true)      (* returns with the flag still set *)
+    else (tbl_st, saved)
+  else
+    if negb (launch_st =? ADDRXLAT_OK) then (launch_st, flag)
+    else let saved := flag in (tbl_st, saved).
+
+(** any sequence of scans (what an entry point such as addrxlat_sys_os_init performs) *)
+Fixpoint scans (early_set : bool) (flag : bool) (l : list (Z * Z)) : bool :=
+  match l with
+  | [] => flag
+  | (ls, ts) :: r => scans early_set (snd (scan_mapped early_set flag ls ts)) r
+  end.
+
+(** a page-table step that meets a non-present entry: status and "a message was recorded" *)
+Definition step_not_present (flag : bool) : Z * bool := (ADDRXLAT_ERR_NOTPRESENT, negb flag).
